@@ -7,7 +7,7 @@
    all 65536), any description (byte list), any nested FieldError / ParameterError tree. *)
 From Coq Require Import NArith List.
 From LLRP Require Import Client.Status Client.StatusProofs Client.StatusExchange Client.StatusExchangeProofs
-  Client.StatusDriver Client.StatusDriverProofs.
+  Client.StatusDriver Client.StatusDriverProofs Client.StatusWire Client.StatusWireProofs.
 Import ListNotations.
 Open Scope N_scope.
 
@@ -248,3 +248,36 @@ Example C12_example_device_exchange :
   ts_err (try_send 2 [ANoClient; AClosed; AOutcome (send_for_outcome 31 31 (decoded_wf ex_status))]) <> None /\
   ts_err (try_send 3 [AOutcome (send_for_outcome 31 31 (decoded_wf (mkStatus 0 [] None None)))]) = None.
 Proof. vm_compute. repeat split; discriminate. Qed.
+
+(* ==== round 7: the reply is identified on the wire ==============================================
+   Model: Client/StatusWire.v — the write loop numbers every message it originates (requests and
+   SendNoWait messages) from ONE counter; [number n0 evs] derives the ids from the order of writes. *)
+
+(* the caller of a request is told the outcome of the reader's answer to THAT message (the frame echoing the
+   number the message went out with), for every mix of requests and SendNoWait messages written before and
+   after it and every answer to those arriving in between; in particular the answer to a SendNoWait message is
+   never taken for the reply of a request *)
+Theorem C12_exchange_reply_identified_on_the_wire : forall v n0 pre e mid f post,
+  Forall (wquiet (n0 + written pre)) mid ->
+  fr_id f = n0 + written pre -> reader_initiated (fr_type f) = false ->
+  In (n0 + written pre, XOutcome (send_for_outcome e (fr_type f) (fr_dec f)))
+     (wresults v n0 (pre ++ WRequest e :: mid ++ WFrame f :: post)).
+Proof. exact wire_own_reply. Qed.
+Print Assumptions C12_exchange_reply_identified_on_the_wire.
+
+(* request ids are the positions of their writes: never repeated, never shared with a SendNoWait message *)
+Theorem C12_exchange_request_ids_are_write_positions : forall evs n id e,
+  In (XSend id e) (number n evs) -> n <= id /\ id < n + written evs.
+Proof. exact number_send_ids. Qed.
+Print Assumptions C12_exchange_request_ids_are_write_positions.
+
+(* non-vacuity: two SendNoWait messages (ids 0, 1), then a request expecting type 34 (id 2); the reader's Success
+   answers to the two fire-and-forget messages arrive while the request is outstanding, then its own reply: 101 *)
+Example C12_example_wire :
+  wresults 1 0 [WNoWait; WNoWait; WRequest 34;
+                WFrame (mkFrame 1 34 0 (decoded_wf (mkStatus 0 [] None None)));
+                WFrame (mkFrame 1 34 1 (decoded_wf (mkStatus 0 [] None None)));
+                WFrame (mkFrame 1 34 2 (decoded_wf (mkStatus 101 [110; 111] (Some (FieldErr 1 300)) None)))] =
+  [(2, XOutcome (mkOutcome (Some (EStatus 101 [110; 111] (Some (FieldErr 1 300)) None))
+                           (RespDecoded (Some (mkStatus 101 [110; 111] (Some (FieldErr 1 300)) None)))))].
+Proof. vm_compute. reflexivity. Qed.
